@@ -18,6 +18,7 @@ import ast
 import contextlib
 import io
 import json
+import os
 import random
 import time
 import typing
@@ -60,6 +61,35 @@ FUTURE = "from __future__ import annotations\n"
 
 _base_module = None
 _modcount = 0
+
+# The known deviations are switchable constants of the specs (FixedStar, FixedFinalInString,
+# FixedNestedLiteral, FixedDunder; FALSE in spec/mc/*.cfg = behaviour of the current code).  To try the
+# check against a tree with some of /verif/proposed/C13-fix-*.diff applied without editing the cfgs:
+#   VERIF_C13_FIXED=star,final,literal,dunder  (any subset)
+_SWITCH = {"star": "FixedStar", "final": "FixedFinalInString", "literal": "FixedNestedLiteral", "dunder": "FixedDunder"}
+
+
+def _cfg_overrides() -> Optional[dict[str, str]]:
+    names = [x.strip() for x in os.environ.get("VERIF_C13_FIXED", "").split(",") if x.strip()]
+    if not names:
+        return None
+    out = {}
+    for path in (core.SPEC / "mc").glob("*.cfg"):
+        if not path.name.startswith(("Annotations", "DefHeaders")):
+            continue
+        text = path.read_text()
+        for n in names:
+            text = text.replace(f"  {_SWITCH[n]} = FALSE", f"  {_SWITCH[n]} = TRUE")
+        out[path.name] = text
+    return out
+
+
+def _tlc(module: str, cfg: str, **kw: Any) -> core.TLCResult:
+    return core.run_tlc(module, cfg, extra_files=_cfg_overrides(), **kw)
+
+
+def _adjudicate(module: str, cfg: str, obs: list[dict], **kw: Any):
+    return core.adjudicate(module, cfg, obs, extra_files=_cfg_overrides(), **kw)
 
 
 def make_module(code: str, name: Optional[str] = None) -> types.ModuleType:
@@ -258,7 +288,7 @@ def judge_annotations(check: core.Check, cases: list[dict], label: str) -> dict[
     obs = _flatten(parts)
     t1 = time.time()
     stripped = [{k: v for k, v in o.items() if k != "src"} for o in obs]
-    verdicts, stats = core.adjudicate("AnnotationsTrace", "AnnotationsTrace.cfg", stripped, batch=1500, parallel=8, timeout=3000)
+    verdicts, stats = _adjudicate("AnnotationsTrace", "AnnotationsTrace.cfg", stripped, batch=1500, parallel=8, timeout=3000)
     check.cov.setdefault("timing", []).append({"what": "annotations:" + label, "observe_s": round(t1 - t0, 1), "adjudicate_s": round(time.time() - t1, 1)})
     check.add_trace_stats(stats)
     check.evals(len(obs))
@@ -492,7 +522,7 @@ def judge_headers(check: core.Check, cases: list[dict], label: str, cfg: str = "
     parts = core.pmap(observe_headers, _batches(cases, 10), chunk=1)
     obs = _flatten(parts)
     t1 = time.time()
-    verdicts, stats = core.adjudicate("DefHeadersTrace", cfg, [_strip_header_obs(o) for o in obs],
+    verdicts, stats = _adjudicate("DefHeadersTrace", cfg, [_strip_header_obs(o) for o in obs],
                                       batch=100, parallel=8, timeout=3000)
     check.cov.setdefault("timing", []).append({"what": "headers:" + label, "observe_s": round(t1 - t0, 1), "adjudicate_s": round(time.time() - t1, 1)})
     check.add_trace_stats(stats)
@@ -535,7 +565,7 @@ def judge_headers(check: core.Check, cases: list[dict], label: str, cfg: str = "
 
 
 def _sensitivity(module: str, cfg: str, inv: str) -> None:
-    r = core.run_tlc(module, cfg, timeout=900, workers=4)
+    r = _tlc(module, cfg, timeout=900, workers=4)
     if r.violated != inv:
         raise core.MachineryError(f"sensitivity self-test failed: {module}/{cfg} should violate {inv}, got {r.violated or r.error}")
 
@@ -562,17 +592,17 @@ def run(check: core.Check) -> None:
     ]
     # ---------------- part A: annotations
     if quick:
-        res = core.require_ok(core.run_tlc("AnnotationsEmit", "Annotations.quick.cfg", coverage=True, timeout=1200), "Annotations exhaustive")
+        res = core.require_ok(_tlc("AnnotationsEmit", "Annotations.quick.cfg", coverage=True, timeout=1200), "Annotations exhaustive")
         check.add_tlc("exhaustive+emit:Annotations.quick.cfg", res)
         cases = core.emitted_json(res)
         limit = 4500
     else:
         # -coverage slows TLC down several times: the vacuity check is made on the 3-form bound, the 4-form
         # bound is then explored without it
-        cov = core.require_ok(core.run_tlc("Annotations", "Annotations.cov.cfg", coverage=True, timeout=1200), "Annotations coverage")
+        cov = core.require_ok(_tlc("Annotations", "Annotations.cov.cfg", coverage=True, timeout=1200), "Annotations coverage")
         core.require_coverage(cov, ["PushLeaf", "ApplyUnary", "ApplyBinary", "ApplyTop", "Finish"], "Annotations")
         check.add_tlc("coverage:Annotations.cov.cfg", cov)
-        res = core.require_ok(core.run_tlc("AnnotationsEmit", "Annotations.thorough.cfg", timeout=3000), "Annotations exhaustive")
+        res = core.require_ok(_tlc("AnnotationsEmit", "Annotations.thorough.cfg", timeout=3000), "Annotations exhaustive")
         check.add_tlc("exhaustive+emit:Annotations.thorough.cfg", res)
         cases = core.emitted_json(res)
         limit = 45000
@@ -580,7 +610,9 @@ def run(check: core.Check) -> None:
         core.require_coverage(res, ["PushLeaf", "ApplyUnary", "ApplyBinary", "ApplyTop", "Finish"], "Annotations")
     if not cases:
         raise core.MachineryError("TLC emitted no annotation expressions")
-    _sensitivity("Annotations", "Annotations.strict.cfg", "AnnotationRoutesAgreeStrict")
+    fixed = {x.strip() for x in os.environ.get("VERIF_C13_FIXED", "").split(",") if x.strip()}
+    if not {"star", "final", "literal"} <= fixed:     # with every annotation deviation repaired the strict property holds
+        _sensitivity("Annotations", "Annotations.strict.cfg", "AnnotationRoutesAgreeStrict")
     _sensitivity("Annotations", "Annotations.bug.cfg", "AnnotationRoutesAgree")
     check.cov["model_cases_annotations"] = len(cases)
     exhaustive_a = len(cases) <= limit
@@ -592,7 +624,7 @@ def run(check: core.Check) -> None:
     ca = judge_annotations(check, cases, "tlc-exhaustive")
     num = 150 if quick else 4000
     sim = core.require_ok(
-        core.run_tlc("AnnotationsEmit", "Annotations.sim.cfg", workers=1, simulate=f"num={num}", depth=24, seed=check.seed + 13, timeout=1800),
+        _tlc("AnnotationsEmit", "Annotations.sim.cfg", workers=1, simulate=f"num={num}", depth=24, seed=check.seed + 13, timeout=1800),
         "Annotations simulate",
     )
     check.add_tlc("simulate:Annotations.sim.cfg", sim)
@@ -603,10 +635,10 @@ def run(check: core.Check) -> None:
     # ---------------- part B: def headers
     hcfg = "DefHeaders.quick.cfg" if quick else "DefHeaders.thorough.cfg"
     if not quick:
-        hcov = core.require_ok(core.run_tlc("DefHeaders", "DefHeaders.cov.cfg", coverage=True, timeout=1200), "DefHeaders coverage")
+        hcov = core.require_ok(_tlc("DefHeaders", "DefHeaders.cov.cfg", coverage=True, timeout=1200), "DefHeaders coverage")
         core.require_coverage(hcov, ["AddParam", "FinishHeader"], "DefHeaders")
         check.add_tlc("coverage:DefHeaders.cov.cfg", hcov)
-    hres = core.require_ok(core.run_tlc("DefHeadersEmit", hcfg, coverage=quick, timeout=3000), "DefHeaders exhaustive")
+    hres = core.require_ok(_tlc("DefHeadersEmit", hcfg, coverage=quick, timeout=3000), "DefHeaders exhaustive")
     if quick:
         core.require_coverage(hres, ["AddParam", "FinishHeader"], "DefHeaders")
     check.add_tlc(("exhaustive+emit:" if quick else "exhaustive:") + hcfg, hres)
@@ -615,7 +647,7 @@ def run(check: core.Check) -> None:
     if quick:
         hcases = core.emitted_json(hres)
     else:   # the thorough model check covers <= 3 parameters; the replay takes the richer 2-parameter vocabulary
-        hem = core.require_ok(core.run_tlc("DefHeadersEmit", "DefHeaders.emitt.cfg", timeout=3000), "DefHeaders emit")
+        hem = core.require_ok(_tlc("DefHeadersEmit", "DefHeaders.emitt.cfg", timeout=3000), "DefHeaders emit")
         check.add_tlc("emit:DefHeaders.emitt.cfg", hem)
         hcases = core.emitted_json(hem)
     if not hcases:
@@ -628,7 +660,7 @@ def run(check: core.Check) -> None:
     ch = judge_headers(check, hcases, "tlc-exhaustive", "DefHeadersTrace.cfg" if quick else "DefHeadersTraceBig.cfg")
     hnum = 4 if quick else 50
     hsim = core.require_ok(
-        core.run_tlc("DefHeadersEmit", "DefHeaders.sim.cfg", workers=1, simulate=f"num={hnum}", depth=8, seed=check.seed + 17, timeout=1800),
+        _tlc("DefHeadersEmit", "DefHeaders.sim.cfg", workers=1, simulate=f"num={hnum}", depth=8, seed=check.seed + 17, timeout=1800),
         "DefHeaders simulate",
     )
     check.add_tlc("simulate:DefHeaders.sim.cfg", hsim)
@@ -676,23 +708,23 @@ def selftest_binding(check: core.Check) -> None:
     e = parse("Optional[int]")
     (o,) = observe_annotations((0, [e]))
     o = {k: v for k, v in o.items() if k != "src"}
-    good, _ = core.adjudicate("AnnotationsTrace", "AnnotationsTrace.cfg", [o])
+    good, _ = _adjudicate("AnnotationsTrace", "AnnotationsTrace.cfg", [o])
     bad = dict(o, str=V("Typed", "str"))
-    v1, _ = core.adjudicate("AnnotationsTrace", "AnnotationsTrace.cfg", [bad])
+    v1, _ = _adjudicate("AnnotationsTrace", "AnnotationsTrace.cfg", [bad])
     bad2 = dict(o, py={"k": "class", "id": "int", "args": []})
-    v2, _ = core.adjudicate("AnnotationsTrace", "AnnotationsTrace.cfg", [bad2])
+    v2, _ = _adjudicate("AnnotationsTrace", "AnnotationsTrace.cfg", [bad2])
     h = {"params": [{"name": "a", "kind": "POSITIONAL_OR_KEYWORD", "ann": parse("int"), "dflt": "none"}],
          "ret": parse("int"), "isasync": False, "future": False}
     calls = [{"npos": n, "kws": k, "bad": b} for n in (0, 1, 2) for k in ([], ["a"], ["zz"]) for b in (False, True)]
     (ho,) = observe_headers((0, [{"h": h, "calls": calls}]))
     ho = _strip_header_obs(ho)
-    hgood, _ = core.adjudicate("DefHeadersTrace", "DefHeadersTrace.cfg", [ho])
+    hgood, _ = _adjudicate("DefHeadersTrace", "DefHeadersTrace.cfg", [ho])
     hbad = json.loads(json.dumps(ho))
     hbad["sigrt"]["a"][0]["a"][0]["n"] = "KEYWORD_ONLY"
-    v3, _ = core.adjudicate("DefHeadersTrace", "DefHeadersTrace.cfg", [hbad])
+    v3, _ = _adjudicate("DefHeadersTrace", "DefHeadersTrace.cfg", [hbad])
     hbad2 = json.loads(json.dumps(ho))
     hbad2["calls"][0]["importer"]["codes"] = ["incompatible_call", "made_up"]
-    v4, _ = core.adjudicate("DefHeadersTrace", "DefHeadersTrace.cfg", [hbad2])
+    v4, _ = _adjudicate("DefHeadersTrace", "DefHeadersTrace.cfg", [hbad2])
     print("uncorrupted:", good, hgood)
     print("str route corrupted     ->", v1)
     print("CPython object corrupted->", v2)
